@@ -1,6 +1,7 @@
 package main
 
 import (
+	"context"
 	"encoding/json"
 	"fmt"
 	"os"
@@ -108,10 +109,12 @@ func runSchedBatch(bin string, seed uint64, n, workers int, deadline time.Time, 
 				if i < 2 {
 					args = append(args, "-keeptrace")
 				}
-				cmd := exec.Command(bin, args...)
+				ctx, cancel := context.WithTimeout(context.Background(), 6*time.Minute)
+				cmd := exec.CommandContext(ctx, bin, args...)
 				logPrefix := fmt.Sprintf("race_%d_%d", w, i)
 				cmd.Env = append(os.Environ(), "GOMAXPROCS=2", "GORACE=halt_on_error=1 atexit_sleep_ms=0 log_path="+filepath.Join(scratch, logPrefix))
 				out, err := cmd.Output()
+				cancel()
 				code := 0
 				if err != nil {
 					if ee, ok := err.(*exec.ExitError); ok {
